@@ -107,6 +107,26 @@ fn build_invalid_params(p: &P) -> Params {
     KMeans::params_with_rng(0, Xoshiro256Plus::seed_from_u64(1)).n_runs(0).tolerance(-1.0)
 }
 
+// one invalid field at a time, so that a restore that "repairs" or clamps a single field shows
+// in the check() verdict even for types without PartialEq
+fn build_invalid_n_runs(_p: &P) -> Params {
+    KMeans::params_with_rng(3, Xoshiro256Plus::seed_from_u64(1)).n_runs(0)
+}
+fn build_invalid_max_iter(_p: &P) -> Params {
+    KMeans::params_with_rng(3, Xoshiro256Plus::seed_from_u64(1)).max_n_iterations(0)
+}
+fn build_invalid_tolerance(_p: &P) -> Params {
+    KMeans::params_with_rng(3, Xoshiro256Plus::seed_from_u64(1)).tolerance(0.0)
+}
+fn build_invalid_clusters(_p: &P) -> Params {
+    KMeans::params_with_rng(0, Xoshiro256Plus::seed_from_u64(1))
+}
+fn build_boundary_params(p: &P) -> Params {
+    // every field at its smallest valid value
+    let (_, _, k) = dims(p);
+    KMeans::params_with_rng(k, Xoshiro256Plus::seed_from_u64(p.seed)).n_runs(1).max_n_iterations(1).tolerance(f64::MIN_POSITIVE)
+}
+
 fn build_valid_params(p: &P) -> KMeansValidParams<f64, Xoshiro256Plus, L2Dist> {
     build_params(p).check().expect("valid")
 }
@@ -171,6 +191,11 @@ pub fn register(r: &mut Registry) {
     );
     r.model::<Params>("kmeans_params", K, &["KMeansParams", "KMeansValidParams", "KMeansInit"], Some((Kind::Claim, true)), build_params, fp_params, Some(|a, b| a == b));
     r.model::<Params>("kmeans_params_invalid", K, &["KMeansParams"], None, build_invalid_params, fp_params, Some(|a, b| a == b));
+    r.model::<Params>("kmeans_params_invalid_n_runs", K, &["KMeansParams"], None, build_invalid_n_runs, fp_params, None);
+    r.model::<Params>("kmeans_params_invalid_max_iter", K, &["KMeansParams"], None, build_invalid_max_iter, fp_params, None);
+    r.model::<Params>("kmeans_params_invalid_tolerance", K, &["KMeansParams"], None, build_invalid_tolerance, fp_params, None);
+    r.model::<Params>("kmeans_params_invalid_clusters", K, &["KMeansParams"], None, build_invalid_clusters, fp_params, None);
+    r.model::<Params>("kmeans_params_boundary", K, &["KMeansParams"], None, build_boundary_params, fp_params, Some(|a, b| a == b));
     r.model::<KMeansValidParams<f64, Xoshiro256Plus, L2Dist>>(
         "kmeans_valid_params",
         K,
